@@ -169,7 +169,8 @@ def plan(tier, seed):
                       "radii": radii, "intr": bool(rng.random() < 0.3)})
     # ---- DensityFilter: radii beyond 11.3 elements on domains wide enough to contain such pairs (squared offsets >= 128)
     for n, radii in [[[14, 9, 0], [11.5, 12.7]], [[1, 15, 0], [12.2, 14.5]], [[9, 9, 3], [11.6, 12.9]]] + \
-            ([] if quick else [[[20, 12, 0], [11.4, 16.3, 23.0]], [[10, 10, 10], [11.5, 15.2]], [[13, 13, 0], [12.0, 18.1]]]):
+            [[[300, 1, 0], [182.5, 240.0]]] + \
+            ([] if quick else [[[20, 12, 0], [11.4, 16.3, 23.0]], [[10, 10, 10], [11.5, 15.2]], [[13, 13, 0], [12.0, 18.1]], [[2, 400, 0], [185.0, 260.3]]]):
         cases.append({"t": "dens", "n": n, "unit": [1.0, 1.3, 0.7], "radii": radii, "intr": False})
     # ---- FilterConv (a): every ordered pair of rules on every axis, narrow and wide kernel
     nmax = 6 if quick else 8
@@ -575,6 +576,11 @@ def _run_conv(case, ctx):
     if rng.random() < 0.35:
         idx = (slice(0, max(1, n3[0] // 2)), slice(None), slice(None)) if rng.random() < 0.5 else \
             (slice(None), slice(max(0, n3[1] - 1), None), slice(None))
+        one_el = None
+        if rng.random() < 0.4:
+            # a single element given by integer grid indices, negative ones counted from the end as everywhere in numpy
+            one_el = tuple(int(rng.integers(-n3[a], n3[a])) for a in range(3))
+            idx = one_el
         val = float(rng.choice([0.0, 1.0, 0.25]))
         m.override_values(idx, val)
         sig2 = pym.Signal("x", np.zeros(nel))
@@ -594,6 +600,24 @@ def _run_conv(case, ctx):
                 ctx.violate("filterconv/value-override-added-after-first-use-acts-differently-from-one-added-before", field=fname,
                             value=val, err=float(np.max(np.abs(ya - yb))) if ya.shape == yb.shape else None, **wit)
                 break
+        if one_el is not None and not wide:
+            # model of a single overridden element e: the padded copies of x_e keep following the boundary rule, only the element itself
+            # is replaced, so  y = y_plain(x) + (value - x_e) * G_e  with G_e the response to a unit impulse at e under zero padding
+            e3 = tuple(one_el[a] % n3[a] for a in range(3))
+            imp = np.zeros(tuple(n3) + (1,))
+            imp[e3 + (0,)] = 1.0
+            G = _ref_A(imp, w3, [0.0] * 6)[0][..., 0]
+            for f in range(2):
+                sig.state = fields[f][1].copy()
+                m.response()
+                y3 = np.asarray(m.sig_out[0].state)[E]
+                want = YA[..., f] + (val - X3[e3 + (f,)]) * G
+                S_ = max(float(np.max(np.abs(fields[f][1]))), cmax, abs(val)) * max(wsum, 1.0)
+                ctx.count("conv_single_element_override_checks")
+                if not float(np.max(np.abs(y3 - want))) <= TOL * S_ + 1e-300:
+                    ctx.violate("filterconv/single-element-value-override-differs-from-model", element=list(one_el), value=val,
+                                err=float(np.max(np.abs(y3 - want))), **wit)
+                    break
         # with overrides the output is an affine function of the field: the midpoint of an exactly uniform field and a random one
         # maps to the midpoint of their outputs (no model of the override semantics needed; uniform fields are where shortcuts live)
         xc, xr = fields[2][1], fields[0][1]
